@@ -138,16 +138,18 @@ struct ReaderCfg { int n; bool delta[3]; };
 // A run is split into parts with different bounds.
 //   rich:  script operations step/decrease on every callback and appear/disappear on cb0 and cb1
 //          (otherwise: step on every callback, decrease and appear/disappear on cb0 only)
-//   reps:  one reader configuration per multiset of temporalities, otherwise all 14 ordered ones
+//   readers: ALL14 = every ordered configuration of 1..3 readers; REP8 = one per multiset of
+//          temporalities plus one reordering; REP6 = REP8 without CC and CDD; TWO5 = at most two readers
 //   both_starts: histories starting with no callback registered as well as with cb0 registered
 //   slim:  callbacks cb0 and cb2 only (same function, different state), script operations on cb0
-//          only, at most two readers - the alphabet of the deepest part
+//          only - the alphabet of the deepest part
 //   ties:  clock-tie deviation sub-run (gauges only): the clock stands still during every operation
 //          and is advanced by 1 ms before each clock-reading operation, except for at most two
 //          "tied" ones per history; everything found here carries the signature prefix C17:clock-tie
-struct Part { int depth; bool rich; bool reps; bool both_starts; bool slim; bool ties; };
+enum ReaderSet { ALL14 = 0, REP8 = 1, REP6 = 2, TWO5 = 3 };
+struct Part { int depth; bool rich; ReaderSet readers; bool both_starts; bool slim; bool ties; };
 std::vector<Part> g_parts;
-std::vector<ReaderCfg> g_readers_all, g_readers_rep;
+std::vector<ReaderCfg> g_reader_sets[4];
 
 struct Got {
   bool present = false;
@@ -246,8 +248,8 @@ void run_observable(vf::Ctx &c) {
   if (P.ties) vf::clock_set_autostep_ns(-1000);  // compensates the interposer's 1 us tick per call: the clock stands still
   int ties_used = 0;
   auto S = [&](const std::string &sig) { return P.ties ? "C17:clock-tie:" + sig.substr(4) : sig; };
-  const std::vector<ReaderCfg> &g_readers = P.reps ? g_readers_rep : g_readers_all;
-  const int rcfg = c.pick("readers", P.slim ? 5 : (int)g_readers.size());  // the first five representatives have at most two readers
+  const std::vector<ReaderCfg> &g_readers = g_reader_sets[P.readers];
+  const int rcfg = c.pick("readers", (int)g_readers.size());
   const bool prereg = P.both_starts ? c.pick("start", 2) == 0 : true;
   const ReaderCfg &RC = g_readers[rcfg];
   const int R = RC.n;
@@ -462,7 +464,7 @@ void run_syncgauge(vf::Ctx &c) {
   if (P.ties) vf::clock_set_autostep_ns(-1000);  // the clock stands still unless the harness advances it
   int ties_used = 0;
   auto S = [&](const std::string &sig) { return P.ties ? "C17:clock-tie:" + sig.substr(4) : sig; };
-  const std::vector<ReaderCfg> &g_readers = P.reps ? g_readers_rep : g_readers_all;
+  const std::vector<ReaderCfg> &g_readers = g_reader_sets[P.readers];
   const int rcfg = c.pick("readers", (int)g_readers.size());
   const ReaderCfg &RC = g_readers[rcfg];
   const int R = RC.n;
@@ -560,27 +562,32 @@ void run_syncgauge(vf::Ctx &c) {
 #endif
 
 void setup(vf::Options &o) {
-  o.split_depth = 6;
+  o.split_depth = 5;
   o.deadline_s = o.thorough ? 900 : 150;
-  o.table_bits = o.thorough ? 26 : 23;
+  o.table_bits = o.thorough ? 25 : 23;
   opentelemetry::sdk::common::internal_log::GlobalLogHandler::SetLogLevel(opentelemetry::sdk::common::internal_log::LogLevel::None);
   const bool D = true, C = false;
   for (int n = 1; n <= 3; ++n)
     for (int m = 0; m < (1 << n); ++m) {
       ReaderCfg rc{n, {false, false, false}};
       for (int i = 0; i < n; ++i) rc.delta[i] = !((m >> i) & 1);
-      g_readers_all.push_back(rc);
+      g_reader_sets[ALL14].push_back(rc);
     }
-  g_readers_rep = {{1, {D}}, {1, {C}}, {2, {D, D}}, {2, {D, C}}, {2, {C, C}}, {3, {D, D, C}}, {3, {D, C, C}}, {3, {C, D, D}}};
+  g_reader_sets[REP8] = {{1, {D}}, {1, {C}}, {2, {D, D}}, {2, {D, C}}, {2, {C, C}}, {3, {D, D, C}}, {3, {D, C, C}}, {3, {C, D, D}}};
+  g_reader_sets[REP6] = {{1, {D}}, {1, {C}}, {2, {D, D}}, {2, {D, C}}, {3, {D, D, C}}, {3, {D, C, C}}};
+  g_reader_sets[TWO5] = {{1, {D}}, {1, {C}}, {2, {D, D}}, {2, {D, C}}, {2, {C, C}}};
+  //                 depth rich  readers both   slim   ties
 #if OPENTELEMETRY_ABI_VERSION_NO >= 2
-  if (o.thorough) g_parts = {{5, false, false, false, false, false}, {6, false, true, false, false, false}, {5, false, true, false, false, true}};
-  else g_parts = {{5, false, true, false, false, false}, {4, false, true, false, false, true}};
+  if (o.thorough) g_parts = {{5, false, ALL14, false, false, false}, {6, false, TWO5, false, false, false}, {5, false, REP6, false, false, true}};
+  else g_parts = {{4, false, REP6, false, false, false}, {4, false, TWO5, false, false, true}};
 #else
-  if (o.thorough) g_parts = {{5, true, false, true, false, false}, {6, true, true, false, false, false}, {8, false, true, false, true, false}, {5, false, true, false, false, true}};
-  else g_parts = {{5, false, true, false, false, false}, {4, false, true, false, false, true}};
+  if (o.thorough)
+    g_parts = {{5, true, ALL14, true, false, false}, {6, false, REP6, false, false, false}, {7, false, TWO5, false, true, false}, {5, false, REP6, false, false, true}};
+  else g_parts = {{5, false, REP6, false, false, false}, {4, false, TWO5, false, false, true}};
 #endif
   std::string d = o.get("depth");
-  if (!d.empty()) g_parts = {{atoi(d.c_str()), o.get("rich") == "1", o.get("allreaders") != "1", o.get("bothstarts") == "1", o.get("slim") == "1", o.get("ties") == "1"}};
+  if (!d.empty())
+    g_parts = {{atoi(d.c_str()), o.get("rich") == "1", (ReaderSet)atoi(o.get("readers", "1").c_str()), o.get("bothstarts") == "1", o.get("slim") == "1", o.get("ties") == "1"}};
 }
 
 void run(vf::Ctx &c) {
